@@ -88,6 +88,25 @@ def tool_worker(case):
         core.cleanup_case(cdir, keep)
 
 
+def bufof(p, ref, k, kind, spec):
+    """Buffer size offered for a request: None = the declared size; "s<n>" = n bytes (smaller), "s-1" = one byte less than the chunk,
+    "+<n>" = n bytes more, "max" = the largest chunk of the file (one buffer for all chunks), "x2" = twice the size."""
+    if not spec:
+        return None
+    size = len(ref.pieces[k]) if kind == "d" else p.chunks[k]["comp_len"]
+    if spec == "s-1":
+        return max(size - 1, 0)
+    if spec.startswith("s"):
+        return min(int(spec[1:]), size)
+    if spec.startswith("+"):
+        return size + int(spec[1:])
+    if spec == "x2":
+        return 2 * size + 1
+    if spec == "max":
+        return max([len(x) for x in ref.pieces] + [c["comp_len"] for c in p.chunks]) + 1
+    raise ValueError(spec)
+
+
 def worker(case):
     if case.get("tools"):
         return tool_worker(case)
@@ -102,11 +121,12 @@ def worker(case):
         p = ref.parsed
         L = ["fopen 1 f.zck r input", "create 1", "init_read 1 1"]
         mv = core.rng(case.get("moves") or 0, "C14", "moves")
-        for k, kind in case["seq"]:
+        for k, kind, *sp in case["seq"]:
+            spec = sp[0] if sp else None
             if case.get("moves") and mv.random() < 0.6:
                 # the application uses the descriptor itself between two requests (its own lseek on the shared offset)
                 L.append("seek 1 %d" % mv.choice([0, 1, len(data), len(data) // 2, mv.randrange(len(data) + 1)]))
-            L.append("%s 1 %d" % ("chunkdata" if kind == "d" else "chunkcomp", k))
+            L.append("%s 1 %d%s" % ("chunkdata" if kind == "d" else "chunkcomp", k, "" if bufof(p, ref, k, kind, spec) is None else " %d" % bufof(p, ref, k, kind, spec)))
         rd = core.run_zh(case["zh"], cdir, "\n".join(L) + "\n", {"f.zck": data}, name="seq")
         if rd.timed_out and not rd.cpu_exceeded:
             return core.verdict(cid, "inconclusive", detail="watchdog", case=case)
@@ -118,21 +138,36 @@ def worker(case):
         if not viol and len(evs) != len(case["seq"]):
             return core.verdict(cid, "inconclusive", detail="missing events", case=case)
         comp = "zstd" if p.comp_type == 2 else "none"
-        for pos, (e, (k, kind)) in enumerate(zip(evs, case["seq"])):
+        for pos, (e, (k, kind, *sp)) in enumerate(zip(evs, case["seq"])):
             c = p.chunks[k]
+            spec = sp[0] if sp else None
             stats["requests"] = stats.get("requests", 0) + 1
             if kind == "d":
                 want = ref.pieces[k]
             else:
                 a = p.header_len + c["start"]
                 want = data[a:a + c["comp_len"]]
+            buf = bufof(p, ref, k, kind, spec)
             got = rd.out[e["off"]:e["off"] + max(e["rc"], 0)] if e["rc"] > 0 else b""
-            if e["rc"] != len(want) or got != want:
+            if buf is not None:
+                stats["requests_with_%s_buffer" % ("larger" if buf > len(want) else ("smaller" if buf < len(want) else "exact"))] = \
+                    stats.get("requests_with_%s_buffer" % ("larger" if buf > len(want) else ("smaller" if buf < len(want) else "exact")), 0) + 1
+            if buf is not None and buf < len(want):
+                # a buffer smaller than the chunk: the property promises nothing about this request itself except that it hands out no wrong
+                # bytes (refusing is fine, a prefix is fine); the requests that FOLLOW are judged as always
+                bad = e["rc"] > buf or (e["rc"] > 0 and got != want[:e["rc"]])
+            else:
+                bad = e["rc"] != len(want) or got != want
+            if bad:
                 prev = case["seq"][pos - 1] if pos else None
                 what = "dict" if k == 0 else ("last" if k == len(p.chunks) - 1 else "mid")
                 cls = "first-request" if pos == 0 else ("after-last" if prev and prev[0] == len(p.chunks) - 1 else ("after-dict" if prev and prev[0] == 0 else "after-other"))
-                viol = ("c14:%s:%s:%s:rc=%s" % ("data" if kind == "d" else "comp", comp, cls, "short" if 0 <= e["rc"] < len(want) else ("neg" if e["rc"] < 0 else "wrongbytes")),
-                        "request #%d (%s of chunk %d/%s) returned rc=%d, expected %d bytes; sequence=%s" % (pos, kind, k, what, e["rc"], len(want), case["seq"]))
+                if prev and len(prev) > 2 and prev[2]:
+                    cls = "after-%s-buffer" % ("smaller" if str(prev[2]).startswith("s") else "larger")
+                if buf is not None and buf != len(want):
+                    cls += ":%s-buffer" % ("smaller" if buf < len(want) else "larger")
+                viol = ("c14:%s:%s:%s:rc=%s" % ("data" if kind == "d" else "comp", comp, cls, "short" if 0 <= e["rc"] < len(want) else ("neg" if e["rc"] < 0 else ("long" if e["rc"] > len(want) else "wrongbytes"))),
+                        "request #%d (%s of chunk %d/%s, buffer %s) returned rc=%d, expected %d bytes; sequence=%s" % (pos, kind, k, what, "declared size" if buf is None else buf, e["rc"], len(want), case["seq"]))
                 break
         if viol:
             keep = True
@@ -148,7 +183,8 @@ class C14(core.Check):
     flavours = ["asan"]
     rule = ("files none/zstd x dict/no dict x uncompressed-source flag x chunk hash types, 2-8 chunks; request sequences over (chunk, data|comp): all "
             "sequences of length <= 2 (quick) / <= 3 (thorough) for the smallest files, random sequences of length 12/50 otherwise, always including "
-            "repeats, last-then-anything and dictionary-in-the-middle. non-trivial = sequence of >= 2 requests")
+            "repeats, last-then-anything and dictionary-in-the-middle; buffers larger than the chunk (one buffer of the largest chunk's size for every request, +1, +4096, x2) and "
+            "smaller ones (1, 16, size-1 bytes) as history for the requests that follow. non-trivial = sequence of >= 2 requests")
     assumptions = ["contexts used for random access only (mixing with streaming zck_read is not promised)"]
     worker = staticmethod(worker)
 
@@ -180,6 +216,18 @@ class C14(core.Check):
             for _ in range(20 if self.quick else 600):
                 ln = 12 if self.quick else 50
                 seqs.append([r.choice(reqs) for _ in range(ln)])
+            # buffers that are not exactly the declared size: one buffer as large as the largest chunk reused for every request, a few bytes
+            # more, twice as much; and smaller ones (a 16-byte peek, one byte short) as HISTORY for the exact requests that follow
+            SP = ["s1", "s16", "s-1", "+1", "+4096", "x2", "max"]
+            seqs += [[(k, "d", "max") for k in range(n)] + [(k, "c", "max") for k in range(n)],
+                     [(1, "d", "s16"), (1, "d")], [(1, "d", "s16"), (last, "d"), (0, "d")], [(last, "d", "s-1"), (1, "d"), (last, "d")],
+                     [(0, "d", "s1"), (1, "d"), (0, "d")], [(1, "c", "s16"), (1, "d"), (1, "c")], [(1, "d", "+1"), (1, "d", "x2"), (last, "d", "+4096"), (last, "c", "+1")]]
+            if n <= 6:
+                for r1 in reqs:
+                    for sp in SP:
+                        seqs.append([r1 + (sp,), r.choice(reqs), r1])
+            for _ in range(20 if self.quick else 600):
+                seqs.append([r.choice(reqs) + ((r.choice(SP),) if r.random() < 0.4 else ()) for _ in range(12 if self.quick else 50)])
             for si, s in enumerate(seqs):
                 out.append({"base": b["name"], "data": core.b64(b["data"]), "seq": [list(x) for x in s], "zh": ctx["zh"]})
                 if si % 5 == 0 and len(s) >= 2:
